@@ -3,13 +3,13 @@
 # applies the patch to the scratch worktree /var/tmp/repo-mut, runs the demo both ways, the repo tests, and the check.
 set -u
 D=$1; P=$2; T=${3:-quick}
-W=/var/tmp/repo-mut
+W=${MUTW:-/var/tmp/repo-mut}
 export GOFLAGS=-mod=mod GOPROXY=off GOSUMDB=off GOTOOLCHAIN=local
 git -C $W checkout -q -- . && git -C $W clean -fdq && git -C $W checkout -q --detach $(git -C /repo rev-parse HEAD)
-echo "== demo on clean tree (expect 0)"; (cd $D && sh ./demo.sh $W >/tmp/demo-clean.log 2>&1); echo "rc=$?"
+echo "== demo on clean tree (expect 0)"; (cd $D && sh ./demo.sh $W >/tmp/demo-clean.$$.log 2>&1); echo "rc=$?"
 git -C $W apply $D/patch.diff || { echo "PATCH DOES NOT APPLY"; exit 3; }
 echo "== build+tests with patch"; (cd $W && go build ./... && go test -vet=off -count=1 ./... 2>&1 | grep -v "no test files" | grep -v "^ok" | head -5); echo "tests-rc=$?"
-echo "== demo with patch (expect non-zero)"; (cd $D && sh ./demo.sh $W >/tmp/demo-mut.log 2>&1); echo "rc=$?"
+echo "== demo with patch (expect non-zero)"; (cd $D && sh ./demo.sh $W >/tmp/demo-mut.$$.log 2>&1); echo "rc=$?"
 echo "== check $P against mutant (expect exit 1)"
 (cd /verif && VERIF_REPO=$W VERIF_KEEP_REPLAY=1 timeout 3000 bin/check $P --tier $T 2>&1 | grep -v '^"CASE' | tail -4); echo "check-rc=$?"
 git -C $W checkout -q -- . && git -C $W clean -fdq
